@@ -484,14 +484,19 @@ pub mod iter {
 
     pub trait ParallelSlice<T: Sync> {
         fn par_chunks<'a>(&'a self, n: usize) -> Par<'a, &'a [T]> where T: 'a;
+        fn par_chunks_exact<'a>(&'a self, n: usize) -> Par<'a, &'a [T]> where T: 'a;
     }
     impl<T: Sync> ParallelSlice<T> for [T] {
         fn par_chunks<'a>(&'a self, n: usize) -> Par<'a, &'a [T]> where T: 'a {
             Par::from_items(self.chunks(n), true)
         }
+        fn par_chunks_exact<'a>(&'a self, n: usize) -> Par<'a, &'a [T]> where T: 'a {
+            Par::from_items(self.chunks_exact(n), true)
+        }
     }
     pub trait ParallelSliceMut<T: Send> {
         fn par_chunks_mut<'a>(&'a mut self, n: usize) -> Par<'a, &'a mut [T]> where T: 'a;
+        fn par_chunks_exact_mut<'a>(&'a mut self, n: usize) -> Par<'a, &'a mut [T]> where T: 'a;
         fn par_sort(&mut self) where T: Ord;
         fn par_sort_unstable(&mut self) where T: Ord;
         fn par_sort_by_key<K: Ord, F: Fn(&T) -> K + Sync>(&mut self, f: F);
@@ -499,6 +504,9 @@ pub mod iter {
     impl<T: Send> ParallelSliceMut<T> for [T] {
         fn par_chunks_mut<'a>(&'a mut self, n: usize) -> Par<'a, &'a mut [T]> where T: 'a {
             Par::from_items(self.chunks_mut(n), true)
+        }
+        fn par_chunks_exact_mut<'a>(&'a mut self, n: usize) -> Par<'a, &'a mut [T]> where T: 'a {
+            Par::from_items(self.chunks_exact_mut(n), true)
         }
         fn par_sort(&mut self) where T: Ord { self.sort() }
         fn par_sort_unstable(&mut self) where T: Ord { self.sort_unstable() }
